@@ -10,7 +10,7 @@ Definition stuck {A} (r : result A) : Prop := r = Err ModelStuck.
 
 Lemma bind_stuck {A B} (r : result A) (f : A -> result B) :
   stuck (bind r f) -> stuck r \/ exists a, r = Ok a /\ stuck (f a).
-Proof. unfold stuck. intros H. destruct r; cbn in H; [right; eauto | left; exact H]. Qed.
+Proof. unfold stuck. intros H. destruct r; cbn in H; [right; eauto | left; injection H as ->; reflexivity]. Qed.
 
 Lemma take_not_stuck n b : ~ stuck (take n b).
 Proof. unfold stuck, take. destruct (Nat.leb n (length b)); discriminate. Qed.
@@ -57,7 +57,7 @@ Proof.
   - destruct (n =? 0); [discriminate H|].
     destruct (d b) as [[v r]|e] eqn:E.
     + destruct (Hc b v r Hw E) as (c & Eb & Lc). rewrite Eb, app_length in Hl. lia.
-    + apply (Hns b Hw). unfold stuck. rewrite E. exact H.
+    + apply (Hns b Hw). unfold stuck in *. rewrite E. injection H as ->. reflexivity.
   - destruct (n =? 0); [discriminate H|].
     apply bind_stuck in H as [H|[[v b1] [E H]]]; [exact (Hns b Hw H)|].
     destruct (Hc b v b1 Hw E) as (c & Eb & Lc).
